@@ -232,3 +232,25 @@ def late_bound_closures(f: FuncInfo) -> list:
                     continue
                 out.append((c, L, hit[0]))
     return out
+
+
+def numeric_or_defaults(f: FuncInfo) -> list:
+    """[(node, text)]: `x or c` where c is a non-zero number or an infinity -- the defaulting idiom applied to a *number*:
+    a legitimate value of 0 (a bound at the origin, a seed of 0, beta = 0) is replaced by the default as well.
+    (`x or 0` / `x or 0.0` are harmless: the replacement equals the value.)"""
+    def numeric_default(e):
+        if isinstance(e, ast.UnaryOp) and isinstance(e.op, (ast.USub, ast.UAdd)):
+            return numeric_default(e.operand)
+        if isinstance(e, ast.Constant) and isinstance(e.value, (int, float)) and not isinstance(e.value, bool):
+            return e.value != 0
+        if isinstance(e, ast.Attribute) and e.attr in ("inf", "infty", "Inf", "pi", "e", "nan"):
+            return True
+        if isinstance(e, ast.Call) and isinstance(e.func, ast.Name) and e.func.id == "float" and e.args and isinstance(e.args[0], ast.Constant) and isinstance(e.args[0].value, str):
+            return True
+        return False
+    out = []
+    for n in walk_no_nested(f.node):
+        if isinstance(n, ast.BoolOp) and isinstance(n.op, ast.Or) and len(n.values) >= 2 and numeric_default(n.values[-1]) \
+                and not any(isinstance(v, (ast.Compare, ast.BoolOp)) for v in n.values[:-1]):
+            out.append((n, ast.unparse(n)[:60]))
+    return out
